@@ -232,7 +232,7 @@ def closure (v : Variant) (parked : List Nat) : Nat → List St → List St → 
   | 0, acc, _ => acc
   | _, acc, [] => acc
   | n + 1, acc, s :: todo =>
-    let new := (tauSucc v parked s).filter fun t => !(acc.contains t) && !(todo.contains t)
+    let new := (tauSucc v parked s).filter fun t => !(acc.contains t)
     let new := new.foldl insertNew []
     closure v parked n (acc ++ new) (todo ++ new)
 
